@@ -61,8 +61,8 @@ def run(tier, seed):
             rec.fail(f"eq:{a}:{b}", f"from_parts({list(a)!r}) == JSONPointer({PU.spell(b)!r}) is {pa == pb}", "sys.exit(2)")
     # join / slash laws
     bases = [(), ("a",), ("a", "0"), ("",), ("a", "0", "2"), ("~01",)]
-    for base in bases:
-        p = JSONPointer(PU.spell(base), unicode_escape=False)
+    for base, built in [(b, how) for b in bases for how in ("parsed", "from_parts")]:
+        p = JSONPointer(PU.spell(base), unicode_escape=False) if built == "parsed" else JSONPointer.from_parts(list(base), unicode_escape=False)
         for t in toks:
             if "\\" in t or t != t.lstrip() or t.startswith("/"):
                 continue
@@ -92,9 +92,9 @@ def run(tier, seed):
                 except Exception as e:  # noqa: BLE001
                     ok, why = False, f"{type(e).__name__}: {e}"
                 if ok:
-                    rec.ok((base, t, how))
+                    rec.ok((base, t, how, built))
                 else:
-                    rec.fail(f"{how}:{base}:{t}", f"JSONPointer({PU.spell(base)!r}) {how} {esc!r}: {why}",
+                    rec.fail(f"{how}:{built}:{base}:{t}", f"JSONPointer({PU.spell(base)!r}) [{built}] {how} {esc!r}: {why}",
                              f"from jsonpath import JSONPointer\np = JSONPointer({PU.spell(base)!r}, unicode_escape=False)\nq = p / {esc!r} if {how == 'slash'} else p.join({esc!r})\nprint(q.parts, str(q)); sys.exit(0 if [str(x) for x in q.parts] == {list(base) + [t]!r} and q.parent() == p else 1)")
         # a joined part that starts with a slash replaces the pointer; join folds the slash operator
         for parts in (("/x",), ("bar", "/baz"), ("", ""), ("a", "b"), ("/x", "y")):
